@@ -131,6 +131,23 @@ pub open spec fn decls_ok(doc: AnalyzedSource) -> bool {
 //@ after_closure |gd|
 , Ghost(|gd: Reference<GlobalDeclaration>| covers(gd, doc.tokens@, index))
 //@end
+
+// ---------- get_local_table: the local scope of a procedure declaration (used by semantic tokens and completion)
+/// the local table of the procedure entry stored under the declaration's name, if there is one
+pub open spec fn local_scope_of(pd: ProcedureDeclaration, table: GlobalTable) -> Option<LocalTable> {
+    match pd.name {
+        Some(name) => if gmap(table).contains_key(name.value@) { match gmap(table)[name.value@] { GlobalEntry::Procedure(p) => Some(p.local_table), GlobalEntry::Type(_) => None } } else { None },
+        None => None,
+    }
+}
+pub open spec fn same_table(r: Option<&LocalTable>, want: Option<LocalTable>) -> bool {
+    match want { Some(t) => r is Some && *r->0 == t, None => r is None }
+}
+//@extract lsp4spl/src/features.rs :: fn get_local_table
+//@ ret r
+//@ sig
+    ensures same_table(r, local_scope_of(*pd, *global_table)), //# get_local_table::the_scope_of_the_entry_under_the_declaration_s_name
+//@end
 //~assume every global declaration's Reference offset and token range lie inside the token vector (`decls_ok`; parser)
 //~not_decided `get_doc` (the document broker behind the channel; async)
 
